@@ -224,6 +224,7 @@ private:
   int _unget;
 
   int _last_c;
+  int _expand_depth = 0;
   bool _last_cpp_comment;
   bool _save_comments;
 
